@@ -429,3 +429,171 @@ def c09_g(ctx):
               'samples[ii] = previous; replaced only under sub_ok',
               'the new state is not (previous state | proposal accepted from a valid sub-tree)',
               fn=g, node=dflt[0] if dflt else loops[0])
+
+
+def _tree_calls(ctx, f, helper):
+    """[(assign stmt, call, target names)] for every `a, b, ... = helper(...)` in f."""
+    out = []
+    for n in own_nodes(f.node):
+        if isinstance(n, ast.Assign) and isinstance(n.value, ast.Call) and \
+                isinstance(n.targets[0], ast.Tuple) and helper in ctx.cg.resolve(f, n.value):
+            names = [e.id if isinstance(e, ast.Name) else None for e in n.targets[0].elts]
+            out.append((n, n.value, names))
+    return out
+
+
+@obligation('C09-h', 'T7 T4', 'NUTS: a sub-tree is grown from the end it updates; leapfrog and '
+            'slice have their textbook shape', floor=8,
+            necessary='a tree grown from one end but written to the other, or a leapfrog with a '
+                      'flipped sign, does not leave the target invariant')
+def c09_h(ctx):
+    nuts = ctx.fn(M + ':nuts')
+    helpers = [g for g in ctx.reachable([nuts], depth=1, may=False)
+               if g.module.name == M and g is not nuts and
+               any(isinstance(n, ast.Call) and ctx.ex(g).term(n.func) == ('param', 'grad_target')
+                   for n in own_nodes(g.node))]
+    if not helpers:
+        raise AnchorMissing('NUTS tree helper')
+    bt = helpers[0]
+    hp = bt.params   # params, momentum, log_slicevar, step, depth, log_joint0, target, grad, rs
+    for f in (nuts, bt):
+        ex = ctx.ex(f)
+        calls = _tree_calls(ctx, f, bt)
+        ends = {}
+        for (stmt, call, names) in calls:
+            a = [ex.raw(x) for x in call.args]
+            if len(a) != len(hp) or len(names) != 11:
+                ctx.undecided('unexpected arity of the tree helper call at ' + f.where(stmt))
+            start = (a[0], a[1])
+            if names[0] and names[1] and not names[2] or (names[0] and names[1] and
+                                                          names[2] == '_' ):
+                side = 'left'
+                upd = (('name', names[0]), ('name', names[1]))
+            elif names[2] and names[3] and (names[0] in (None, '_')):
+                side = 'right'
+                upd = (('name', names[2]), ('name', names[3]))
+            else:
+                # the first call inside the helper fills both ends from the given state
+                side = 'both'
+                upd = None
+            if upd is not None:
+                ctx.check(start == upd, f, 'sub-tree grown from the end it updates (' + side + ')',
+                          'start state = ({}, {}) = updated state'.format(show(a[0]), show(a[1])),
+                          'the {} sub-tree starts from ({}, {}) but updates ({}, {})'.format(
+                              side, show(a[0]), show(a[1]), show(upd[0]), show(upd[1])), fn=f,
+                          node=call)
+                ends[side] = upd
+                # direction of the step
+                stp = a[3]
+                if f is nuts:
+                    neg = stp[0] == 'unary' and stp[1] == '-'
+                    ctx.check(neg == (side == 'left'), f, 'step sign of the ' + side + ' sub-tree',
+                              'left: -stepsize, right: +stepsize',
+                              'the {} sub-tree is grown with step {}'.format(side, show(stp)),
+                              fn=f, node=call)
+                else:
+                    ctx.check(stp == ('name', hp[3]), f, 'step passed down unchanged', '',
+                              'a recursive call changes the step', fn=f, node=call)
+                    g = ctx.guards(f, stmt)
+                    want_neg = side == 'left'
+                    okg = any((pol == want_neg) and match(t, pattern('{} < 0'.format(hp[3])))
+                              is not None for (t, pol, _) in g)
+                    ctx.check(okg, f, side + ' extension chosen by the sign of the step',
+                              'step < 0 extends the left end',
+                              'the {} end is extended under the wrong sign of the step'.format(
+                                  side), fn=f, node=call)
+            # invariants handed down
+            same = [(2, 'log_slicevar'), (5, 'log_joint0'), (6, 'target'), (7, 'grad_target'),
+                    (8, 'random_state')]
+            if f is bt:
+                ok = all(a[i] == ('name', hp[i]) for (i, _) in same)
+                okd = a[4] == ('binop', '-', ('name', hp[4]), ('const', 1))
+                ctx.check(ok and okd, f, 'recursion passes the slice, target and generator on, '
+                          'depth - 1', '', 'a recursive call changes slice variable / target / '
+                          'generator or does not reduce the depth by one', fn=f, node=call)
+        if 'left' in ends and 'right' in ends:
+            L, R = ends['left'], ends['right']
+            ctx.check(L != R, f, 'two distinct ends', '', 'left and right end are the same '
+                      'variables', fn=f, node=f.node)
+            # U-turn test: (right - left) . momentum_left >= 0 and . momentum_right >= 0
+            ut = 0
+            for n in own_nodes(f.node):
+                if isinstance(n, ast.Compare):
+                    t = ex.raw(n)
+                    for mom in (L[1], R[1]):
+                        if t == ('cmp', '<=', ('const', 0),
+                                 ('call', ('global', 'numpy.inner'),
+                                  (('binop', '-', R[0], L[0]), mom), ())):
+                            ut += 1
+            ctx.check(ut >= 2, f, 'U-turn test', 'inner(right - left, momentum_end) >= 0 for both '
+                      'ends', 'the no-U-turn condition is not inner(params_right - params_left, '
+                      'momentum) >= 0 for both momenta', fn=f, node=f.node)
+    # leapfrog in the base case
+    ex = ctx.ex(bt)
+    P, Mo, ST, G = hp[0], hp[1], hp[3], hp[7]
+    asg = [n for n in own_nodes(bt.node) if isinstance(n, ast.Assign) and
+           isinstance(n.targets[0], ast.Name)]
+    def find(pats):
+        for n in asg:
+            for p in pats:
+                if match(ex.raw(n.value), pattern(p)) is not None:
+                    return n
+        return None
+    half1 = find(['{m} + 0.5 * {s} * {g}({p})'.format(m=Mo, s=ST, g=G, p=P)])
+    ctx.check(half1 is not None, bt, 'first half step of the momentum',
+              'momentum + 0.5 * step * grad(params)', 'no momentum half step of the form momentum '
+              '+ 0.5 * step * grad_target(params)', fn=bt, node=half1 or bt.node)
+    if half1 is None:
+        return
+    m1 = half1.targets[0].id
+    full = find(['{p} + {s} * {m}'.format(p=P, s=ST, m=m1)])
+    ctx.check(full is not None and ctx.must_precede(bt, [half1], full) if full else False, bt,
+              'full position step', 'params + step * momentum_half',
+              'no position step of the form params + step * momentum_half', fn=bt,
+              node=full or bt.node)
+    if full is None:
+        return
+    p1 = full.targets[0].id
+    half2 = find(['{m} + 0.5 * {s} * {g}({p})'.format(m=m1, s=ST, g=G, p=p1)])
+    ctx.check(half2 is not None and ctx.must_precede(bt, [full], half2) if half2 else False, bt,
+              'second half step of the momentum', 'momentum_half + 0.5 * step * grad(params_new)',
+              'no second momentum half step at the new position', fn=bt, node=half2 or bt.node)
+    lj = find(['target({p}) - 0.5 * np.inner({m}, {m})'.format(p=p1, m=m1)])
+    ctx.check(lj is not None and (half2 is None or ctx.must_precede(bt, [half2], lj)), bt,
+              'joint log density of the new state', 'target(new) - 0.5 |momentum_new|^2',
+              'the joint log density is not target(params_new) - 0.5 * inner(momentum_new, '
+              'momentum_new)', fn=bt, node=lj or bt.node)
+    if lj is not None:
+        ljn = lj.targets[0].id
+        div = find(['log_slicevar < 1000.0 + {}'.format(ljn)])
+        ctx.check(div is not None, bt, 'divergence test', 'log_slicevar < 1000 + log_joint',
+                  'the divergence test is not log_slicevar < 1000 + log_joint', fn=bt,
+                  node=div or bt.node)
+        mh = find(['min(1.0, np.exp({} - log_joint0))'.format(ljn)])
+        ctx.check(mh is not None, bt, 'acceptance statistic', 'min(1, exp(log_joint - log_joint0))',
+                  'the acceptance statistic is not min(1, exp(log_joint - log_joint0))', fn=bt,
+                  node=mh or bt.node)
+    # slice variable and initial joint in the main loop
+    exn = ctx.ex(nuts)
+    asgn = [n for n in own_nodes(nuts.node) if isinstance(n, ast.Assign) and
+            isinstance(n.targets[0], ast.Name) and enclosing_loop(n) is not None]
+    j0 = [n for n in asgn if match(exn.raw(n.value),
+                                   pattern('target(_p) - 0.5 * np.inner(_m, _m)')) is not None and
+          isinstance(enclosing_loop(n), ast.For)]
+    ok = bool(j0)
+    sv = []
+    if ok:
+        jn = j0[0].targets[0].id
+        g, _ = gen_name(ctx, nuts)
+        sv = [n for n in asgn if exn.raw(n.value) ==
+              ('binop', '-', ('name', jn), pattern('{}.exponential()'.format(g)))
+              or match(exn.raw(n.value), pattern('{} - {}.exponential()'.format(jn, g))) is not None]
+    ctx.check(ok and bool(sv), nuts, 'slice variable', 'log_slicevar = log_joint0 - Exp(1) draw',
+              'the slice variable is not log_joint0 minus an exponential draw from the seeded '
+              'generator', fn=nuts, node=sv[0] if sv else (j0[0] if j0 else nuts.node))
+    # a proposal is taken over only from a valid sub-tree, with probability n_sub / n_ok
+    acc = [n for n in own_nodes(nuts.node) if isinstance(n, ast.Compare) and
+           match(exn.raw(n), pattern('_g.rand() < float(_a) / _b')) is not None]
+    ctx.check(bool(acc), nuts, 'sub-tree proposal accepted with probability n_sub / n_ok',
+              'rand() < float(n_sub) / n_ok', 'the sub-tree proposal is not accepted with '
+              'probability n_sub / n_ok', fn=nuts, node=acc[0] if acc else nuts.node)
